@@ -339,6 +339,8 @@ class ObjRun:
                     self.op_mutate_copy(target, op)
                 elif k == "compose":
                     self.op_compose(target, op)
+                elif k == "unnamed":
+                    self.op_unnamed(op)
             except core.SimCrash:
                 ctx.count("ops_crashed_by_fault")
             finally:
@@ -493,6 +495,52 @@ class ObjRun:
                 ctx.violate("C01", "wrong_value", {"engine": "objhist", "obj_class": type(obj).__name__,
                                                    "how": "kw", "graph": self.sc["graph"]["graph"]}, got=w, expected=self.total)
 
+    def op_unnamed(self, op):
+        """Originals created WITHOUT name= (CUQIpy then infers the name from the caller's variable names), conditioned
+        in different orders relative to the first read of the name: a conditioned copy keeps the random-variable name
+        of its original.  The local variable names below are the expected names."""
+        from cuqi.distribution import Gaussian, Gamma
+        ctx = self.ctx
+        n = 3
+        variant = op["variant"]
+        data = np.linspace(-1, 1, n)
+        got = {}
+        try:
+            if variant == "evaluated_first":
+                xq = Gaussian(np.zeros(n), 0.8)
+                first = xq(xq=data)                     # conditioned before the name was ever read
+                got = {"copy": first.name, "orig": xq.name, "want": "xq"}
+            elif variant == "name_read_first":
+                xq = Gaussian(np.zeros(n), 0.8)
+                _ = xq.name
+                first = xq(xq=data)
+                got = {"copy": first.name, "orig": xq.name, "want": "xq"}
+            elif variant == "likelihood":
+                yq = Gaussian(np.zeros(n), cov=lambda s: 1 / s)
+                first = yq(yq=data)                     # -> Likelihood
+                got = {"copy": first.name, "orig": yq.name, "want": "yq"}
+            elif variant == "partial_then_data":
+                yq = Gaussian(np.zeros(n), cov=lambda s: 1 / s)
+                mid = yq(s=2.0)
+                first = mid(yq=data)                    # copy of a copy -> EvaluatedDensity
+                got = {"copy": first.name, "mid": mid.name, "orig": yq.name, "want": "yq"}
+            elif variant == "positional":
+                xq = Gamma(2.0, 1.0)
+                first = xq(1.3)                         # positional main parameter
+                got = {"copy": first.name, "orig": xq.name, "want": "xq"}
+        except core.SimCrash:
+            raise
+        except Exception as e:
+            ctx.violate("C11", "unnamed_original", {"engine": "objhist", "variant": variant, "cls": "raised"},
+                        err=type(e).__name__ + ": " + str(e)[:160])
+            return
+        ctx.count("decisions")
+        ctx.hit("names_inferred_from_stack")
+        want = got.pop("want")
+        if any(v != want for v in got.values()):
+            ctx.violate("C11", "unnamed_original", {"engine": "objhist", "variant": variant, "cls": "name_not_kept"},
+                        names=got, expected=want)
+
     def op_compose(self, o, op):
         """use a derived, fully specified distribution as a component of a *new* joint and condition that joint a few
         times (a reduced conditional re-used in a larger model): the derived object must stay what it was"""
@@ -622,8 +670,13 @@ def gen_case(r, tier):
             ops.append({"op": "special", "on": on, "what": r.choice(["to_likelihood", "stacked"])})
         elif x < 0.915:
             ops.append({"op": "model_apply", "pick": r.randrange(1000)})
-        elif x < 0.94:
+        elif x < 0.935:
             ops.append({"op": "compose", "on": on, "times": r.choice([1, 3, 10])})
+        elif x < 0.95:
+            ops.append({"op": "unnamed", "variant": r.choice(["evaluated_first", "name_read_first", "likelihood",
+                                                              "partial_then_data", "positional"])})
+        elif x < 0.955:
+            pass
         else:
             ops.append({"op": "fault", "tag": r.choice(TAGS[g]), "k": r.randint(0, 6), "kind": r.choice(["raise", "nan"])})
     return {"scenario": sc, "ops": ops}
